@@ -40,7 +40,7 @@ func (r *RNG) Bool(p float64) bool { return r.Float64() < p }
 
 // StrategyConfig selects the scheduling strategy of a run.
 type StrategyConfig struct {
-	Kind    string  // "random", "sticky", "pct", "rr"
+	Kind    string  // "random", "sticky", "pct", "rr", "rrq"
 	Stick   float64 // sticky: probability of staying with the running task
 	Depth   int     // pct: number of priority change points
 	Horizon int     // pct: estimated run length in steps (change points are drawn in [1,Horizon])
@@ -74,6 +74,11 @@ func newStrategy(cfg StrategyConfig, seed uint64) strategy {
 			q = 1
 		}
 		return &rrStrat{r: r, q: q}
+	case "rrq":
+		// round robin with a quantum of its own per task (drawn once per task): a
+		// task with quantum 1 is interrupted after every step by tasks that get
+		// whole operations done in between - the adversary of bounded retry loops
+		return &rrStrat{r: r, q: 1, perTask: map[int]int{}}
 	}
 	return &randomStrat{r: r}
 }
@@ -148,15 +153,31 @@ func (st *pctStrat) demote(s *Sim, t *Task) {
 func (st *pctStrat) rng() *RNG { return st.r }
 
 type rrStrat struct {
-	r    *RNG
-	q    int
-	used int
-	last int
+	r       *RNG
+	q       int
+	used    int
+	last    int
+	perTask map[int]int
+}
+
+var rrqQuanta = []int{1, 1, 1, 2, 3, 5, 8, 13, 21, 34, 55}
+
+//go:norace
+func (st *rrStrat) quantum(t *Task) int {
+	if st.perTask == nil {
+		return st.q
+	}
+	q, ok := st.perTask[t.ID]
+	if !ok {
+		q = rrqQuanta[st.r.Intn(len(rrqQuanta))]
+		st.perTask[t.ID] = q
+	}
+	return q
 }
 
 //go:norace
 func (st *rrStrat) pick(s *Sim, c []*Task, self *Task) *Task {
-	if self != nil && st.used < st.q {
+	if self != nil && st.used < st.quantum(self) {
 		for _, t := range c {
 			if t == self {
 				st.used++
